@@ -100,6 +100,43 @@ impl Monitor for Mon {
                                 }
                             }
                         }
+                        // the same with the 15-minute TWAP value recomputed from the harness's own record of block-final reserves
+                        // (one raw unit of slack either way: the most favourable of the three candidates counts)
+                        if let Some(tref) = pr.n_twap_ref {
+                            let mut best: Option<S> = None;
+                            for cand in [tref.saturating_sub(1), tref, tref.saturating_add(1)] {
+                                let mut p2 = pr.clone();
+                                p2.n_twap = Some(cand);
+                                if let Some((pn, n, _)) = p2.chosen() {
+                                    if n > 0 {
+                                        let r = ratio(p2.equity(&pn), n, d);
+                                        best = Some(match best {
+                                            Some(b) if b.ge(&r) => b,
+                                            _ => r,
+                                        });
+                                        continue;
+                                    }
+                                }
+                                best = None;
+                                break;
+                            }
+                            if let Some(r) = best {
+                                out.count("post_open_ratio_checks_with_recomputed_twap");
+                                if r.lt(&maint) {
+                                    return Some(
+                                        Violation::new(
+                                            "undermargined_after_open",
+                                            format!(
+                                                "after a successful OpenPosition ({:?}) the margin ratio with the 15-minute TWAP value {} recomputed from the block-final reserves (the vAMM answered {:?}) is at most {} < maintenance {}",
+                                                s.effect, tref, pr.n_twap, r, maint
+                                            ),
+                                        )
+                                        .with("effect", format!("{:?}", s.effect))
+                                        .with("source", "recomputed_twap"),
+                                    );
+                                }
+                            }
+                        }
                         if let Some(p0) = &self.pre_ref {
                             let moved = p0.n_spot.map(|n| n.abs_diff(p0.notional) * 100 >= p0.notional).unwrap_or(false);
                             if moved || !p0.funding.is_zero() {
